@@ -75,16 +75,16 @@ class CheckC10(core.Check):
         rnd = random.Random(self.seed * 999331 + 10)
         quick = self.tier == "quick"
         descs = []
-        for i in range(6 if quick else 60):
+        for i in range(20 if quick else 300):
             descs.append(("parse", rnd.getrandbits(32)))
         variants = list(all_variants())
-        sample = rnd.sample(variants, 36) if quick else variants
+        sample = rnd.sample(variants, 110) if quick else variants
         # always include the shapes with s-under-key, deferred tails, psk at both ends
         for must in [("XX", ()), ("IK", ()), ("X1X1", ()), ("K", ()), ("N", (0,)), ("XX", (0, 3)), ("NX1", ()), ("KK", (2,)), ("IX", (1,))]:
             if must not in sample:
                 sample.append(must)
         for p, ps in sample:
-            for dh in DHS if not quick else (rnd.choice(DHS),):
+            for dh, rep in [(d, r) for d in (DHS if not quick else (rnd.choice(DHS),)) for r in range(1 if quick else 4)]:
                 name = make_name(p, ps, dh, rnd.choice(CIPHERS), rnd.choice(HASHES))
                 n = len(overhead(p, ps, 32))
                 for k in range(n):
